@@ -233,21 +233,38 @@ theorem finW_pool (w : World) (c : List (Addr × Obj)) : (finW w c).pool = w.poo
   | nil => rfl
   | cons h t ih => rw [List.foldl_cons, ih, finaliseObj_pool]
 
+theorem removeAccount_bal_ne (w : World) (k a : Addr) (o : Obj) (h : a ≠ k) :
+    bal (removeAccount w k o).bal a = bal w.bal a := by
+  unfold removeAccount
+  simp only
+  split
+  · rfl
+  · exact bal_setBal_ne _ _ _ _ h
+
+theorem removeAccount_bal_self (w : World) (a : Addr) (o : Obj) :
+    bal (removeAccount w a o).bal a = o.bal := by
+  unfold removeAccount
+  simp only
+  split
+  · assumption
+  · exact bal_setBal_self _ _ _
+
 theorem finaliseObj_bal_ne (w : World) (p : Addr × Obj) (a : Addr) (h : a ≠ p.1) :
     bal (finaliseObj w p).bal a = bal w.bal a := by
   unfold finaliseObj; split
-  · rfl
+  · exact removeAccount_bal_ne w p.1 a p.2 h
   · split
     · simp [setAccount, bal_setBal_ne _ _ _ _ h]
     · rfl
 
+/-- `Finalise` leaves the working balance of every dropped or dirty object in the record -/
 theorem finaliseObj_bal_self (w : World) (a : Addr) (o : Obj) :
     bal (finaliseObj w (a, o)).bal a =
-      if gone o then bal w.bal a else if o.dirty then o.bal else bal w.bal a := by
+      if gone o then o.bal else if o.dirty then o.bal else bal w.bal a := by
   unfold finaliseObj gone
   simp only
   split
-  · rfl
+  · exact removeAccount_bal_self w a o
   · split
     · simp [setAccount, bal_setBal_self]
     · rfl
@@ -274,7 +291,7 @@ theorem finaliseObj_keeper_self (w : World) (a : Addr) (o : Obj) :
 theorem finW_bal (w : World) (c : List (Addr × Obj)) (a : Addr) (hn : (akeys c).Nodup) :
     bal (finW w c).bal a =
       match alookup a c with
-      | some o => if gone o then bal w.bal a else if o.dirty then o.bal else bal w.bal a
+      | some o => if gone o then o.bal else if o.dirty then o.bal else bal w.bal a
       | none => bal w.bal a := by
   induction c generalizing w with
   | nil => rfl
@@ -512,7 +529,7 @@ theorem deliver_ok (env : Env) (s s' : St) (tx : Tx) (vm : VmOut) (r : Resp)
   | some e =>
     rw [hv] at h
     simp only at h
-    split at h <;> (simp only [Prod.mk.injEq] at h; rw [← h.2] at hc; simp at hc)
+    simp only [Prod.mk.injEq] at h; rw [← h.2] at hc; simp at hc
   | none =>
     rw [hv] at h
     simp only at h
@@ -543,7 +560,7 @@ theorem deliver_refused (env : Env) (s s' : St) (tx : Tx) (vm : VmOut) (r : Resp
   | some e =>
     rw [hv] at h
     simp only at h
-    split at h <;> (simp only [Prod.mk.injEq] at h; exact Or.inl h.1.symm)
+    simp only [Prod.mk.injEq] at h; exact Or.inl h.1.symm
   | none =>
     rw [hv] at h
     simp only at h
@@ -943,18 +960,15 @@ theorem tracks_transfer_dst (s : St) (x a : Addr) (b v : Int) (hxa : a ≠ x) (h
   exact tracks_add_self _ a b v (tracks_congr _ _ _ _ (subBalance_frame s x a v hxa) (subBalance_w s x v) h)
 
 /-- `Finalise` writes a tracked balance (or leaves an equal record alone) -/
-theorem tracks_finalise (s : St) (a : Addr) (b : Int) (hwf : WF s) (h : Tracks s a b)
-    (h0 : 0 ≤ bal s.w.bal a) (hb : bal s.w.bal a ≤ b) : bal (finalise s).w.bal a = b := by
+theorem tracks_finalise (s : St) (a : Addr) (b : Int) (hwf : WF s) (h : Tracks s a b) :
+    bal (finalise s).w.bal a = b := by
   rw [finalise_w, finW_bal _ _ _ hwf]
   rcases h with ⟨hn, hb'⟩ | ⟨o, ho, hob, hs, hd⟩
   · rw [hn]; exact hb'.symm
   · rw [ho]
     simp only
     by_cases hg : gone o = true
-    · simp only [hg, if_true]
-      unfold gone isEmpty at hg
-      simp only [hs, Bool.false_or, Bool.and_eq_true, beq_iff_eq, Bool.not_eq_true'] at hg
-      omega
+    · simp [hg, hob]
     · simp only [hg, Bool.false_eq_true, if_false]
       by_cases hdd : o.dirty = true
       · simp [hdd, hob]
@@ -1189,10 +1203,21 @@ theorem pend_callPrep (s : St) (t : Addr) : pend (callPrep s t) = pend s := by
 theorem pend_createPrep (s : St) (tx : Tx) (a : Addr) : pend (createPrep s tx a) = pend s := by
   unfold createPrep; rw [pend_transfer, pend_setNonce, pend_createAccount]
 
-theorem pend_applyEffs (s s' : St) (l : List Eff) (hn : noSuicide l = true) (he : applyEffs s l = some s') :
-    pend s' = pend s + effSum l := by
+theorem pend_suicide (s : St) (a : Addr) : pend (suicide s a) = pend s - evmBalance s a := by
+  unfold suicide
+  cases hp : peek s a with
+  | none => simp [evmBalance, hp]
+  | some o =>
+    simp only
+    rw [pend_putObj]
+    have : evmBalance s a = o.bal := by simp [evmBalance, hp]
+    simp only [this]; omega
+
+/-- the interpreter's calls change the sum of working balances by exactly `vmNet` -/
+theorem pend_applyEffs (s s' : St) (l : List Eff) (he : applyEffs s l = some s') :
+    pend s' = pend s + vmNet s l := by
   induction l generalizing s with
-  | nil => simp [applyEffs] at he; subst he; simp [effSum]
+  | nil => simp [applyEffs] at he; subst he; simp [vmNet]
   | cons e t ih =>
     simp only [applyEffs] at he
     cases h1 : applyEff s e with
@@ -1205,14 +1230,26 @@ theorem pend_applyEffs (s s' : St) (l : List Eff) (hn : noSuicide l = true) (he 
         split at h1
         · simp at h1
         · simp at h1; subst h1
-          rw [ih _ (by simpa [noSuicide] using hn) he, pend_subBalance]; simp [effSum]; omega
+          rw [ih _ he, pend_subBalance]; simp only [vmNet]; omega
       | add a n =>
         simp only [applyEff, Option.some.injEq] at h1; subst h1
-        rw [ih _ (by simpa [noSuicide] using hn) he, pend_addBalance]; simp [effSum]; omega
-      | suicide a => simp [noSuicide] at hn
+        rw [ih _ he, pend_addBalance]; simp only [vmNet]; omega
+      | suicide a =>
+        simp only [applyEff, Option.some.injEq] at h1; subst h1
+        rw [ih _ he, pend_suicide]; simp only [vmNet]; omega
+
+/-- without `Suicide` calls the net is the state-independent sum of credits minus debits -/
+theorem vmNet_noSuicide (s : St) (l : List Eff) (hn : noSuicide l = true) : vmNet s l = effSum l := by
+  induction l generalizing s with
+  | nil => rfl
+  | cons e t ih =>
+    cases e with
+    | sub a n => simp only [vmNet, effSum]; rw [ih _ (by simpa [noSuicide] using hn)]
+    | add a n => simp only [vmNet, effSum]; rw [ih _ (by simpa [noSuicide] using hn)]
+    | suicide a => simp [noSuicide] at hn
 
 theorem pend_evmCall (s : St) (tx : Tx) (t : Addr) (gas : Nat) (vm : VmOut) (s2 : St) (gl : Nat) (f : Bool)
-    (hn : noSuicide vm.effs = true) (hz : effSum vm.effs = 0)
+    (hz : vmNet (transfer (callPrep s t) tx.sender t tx.value) vm.effs = 0)
     (hr : evmCall s tx t gas vm = some (s2, gl, f)) : pend s2 = pend s := by
   rcases evmCall_cases s tx t gas vm s2 gl f hr with
     ⟨rfl, -⟩ | ⟨rfl, -⟩ | ⟨rfl, -⟩ | ⟨rfl, -⟩ | ⟨s3, he, rfl, -⟩
@@ -1220,10 +1257,10 @@ theorem pend_evmCall (s : St) (tx : Tx) (t : Addr) (gas : Nat) (vm : VmOut) (s2 
   · rfl
   · rw [pend_transfer, pend_callPrep]
   · rw [pend_markAll]
-  · rw [pend_markAll, pend_applyEffs _ _ _ hn he, pend_transfer, pend_callPrep, hz]; omega
+  · rw [pend_markAll, pend_applyEffs _ _ _ he, pend_transfer, pend_callPrep, hz]; omega
 
 theorem pend_evmCreate (env : Env) (s : St) (tx : Tx) (vm : VmOut) (gas : Nat) (s2 : St) (gl : Nat) (f : Bool)
-    (hn : noSuicide vm.effs = true) (hz : effSum vm.effs = 0)
+    (hz : vmNet (createPrep (setNonce s tx.sender (evmNonce s tx.sender + 1)) tx env.newAddr) vm.effs = 0)
     (hr : evmCreate env s tx vm gas = some (s2, gl, f)) : pend s2 = pend s := by
   rcases evmCreate_cases env s tx vm gas s2 gl f hr with
     ⟨rfl, -⟩ | ⟨rfl, -⟩ | ⟨rfl, -⟩ | ⟨s3, he, rfl, -⟩
@@ -1232,7 +1269,7 @@ theorem pend_evmCreate (env : Env) (s : St) (tx : Tx) (vm : VmOut) (gas : Nat) (
   · rw [pend_markAll, pend_setNonce]
   · rw [pend_markAll]
     have h3 : pend s3 = pend s := by
-      rw [pend_applyEffs _ _ _ hn he, pend_createPrep, pend_setNonce, hz]; omega
+      rw [pend_applyEffs _ _ _ he, pend_createPrep, pend_setNonce, hz]; omega
     split
     · rw [pend_setCode, h3]
     · exact h3
@@ -1242,7 +1279,7 @@ theorem pend_empty (s : St) (h : s.cache = []) : pend s = 0 := by simp [pend, h,
 /-- what the cache holds on top of the records when `TransitionDb` returns: the sender has paid
     for the gas that was used, everything else nets to zero -/
 theorem pend_transitionDb (env : Env) (s s1 : St) (tx : Tx) (vm : VmOut) (er : ExecResult)
-    (h0 : s.cache = []) (hn : noSuicide vm.effs = true) (hz : effSum vm.effs = 0)
+    (h0 : s.cache = []) (hz : vmNet (vmInput env s tx) vm.effs = 0)
     (h : transitionDb env s tx vm = some (s1, .ok er)) :
     ∃ gf : Nat, er.usedGas = gasU tx - gf ∧
       pend s1 = - ((gasU tx : Int) * tx.price) + (gf : Int) * tx.price := by
@@ -1250,9 +1287,15 @@ theorem pend_transitionDb (env : Env) (s s1 : St) (tx : Tx) (vm : VmOut) (er : E
   refine ⟨gasFinal tx vm gl, rfl, ?_⟩
   have hs2 : pend s2 = pend (bought s tx) := by
     unfold runVm at hr
+    unfold vmInput at hz
     split at hr
-    · exact pend_evmCreate env _ tx vm _ s2 gl f hn hz hr
-    · rw [pend_evmCall _ tx _ _ vm s2 gl f hn hz hr, pend_setNonce]
+    · rename_i hto
+      simp only [hto] at hz
+      exact pend_evmCreate env _ tx vm _ s2 gl f hz hr
+    · rename_i t hto
+      simp only [hto] at hz
+      rw [pend_evmCall _ tx _ _ vm s2 gl f hz hr, pend_setNonce]
+      rfl
   rw [pend_addBalance, hs2]
   unfold bought
   rw [pend_subBalance, pend_empty s h0]; omega
@@ -1262,7 +1305,7 @@ theorem pend_transitionDb (env : Env) (s s1 : St) (tx : Tx) (vm : VmOut) (er : E
 /-- Σ over the cached objects of what `Finalise` adds to the stored balance -/
 def wsum (w : World) : List (Addr × Obj) → Int
   | [] => 0
-  | p :: t => (if gone p.2 then 0 else if p.2.dirty then p.2.bal - bal w.bal p.1 else 0) + wsum w t
+  | p :: t => (if gone p.2 then p.2.bal - bal w.bal p.1 else if p.2.dirty then p.2.bal - bal w.bal p.1 else 0) + wsum w t
 
 theorem wsum_congr (w w' : World) (c : List (Addr × Obj)) (h : ∀ a ∈ akeys c, bal w'.bal a = bal w.bal a) :
     wsum w' c = wsum w c := by
@@ -1273,12 +1316,20 @@ theorem wsum_congr (w w' : World) (c : List (Addr × Obj)) (h : ∀ a ∈ akeys 
     have h2 := ih (fun a ha => h a (by simp [akeys] at ha ⊢; exact Or.inr ha))
     simp only [wsum, h1, h2]
 
+theorem total_removeAccount (w : World) (a : Addr) (o : Obj) :
+    total (removeAccount w a o).bal = total w.bal + (o.bal - bal w.bal a) := by
+  unfold removeAccount
+  simp only
+  split
+  · omega
+  · rw [total_setBal]; omega
+
 theorem total_finaliseObj (w : World) (p : Addr × Obj) :
     total (finaliseObj w p).bal = total w.bal +
-      (if gone p.2 then 0 else if p.2.dirty then p.2.bal - bal w.bal p.1 else 0) := by
+      (if gone p.2 then p.2.bal - bal w.bal p.1 else if p.2.dirty then p.2.bal - bal w.bal p.1 else 0) := by
   unfold finaliseObj gone
   split
-  · simp [removeAccount]
+  · exact total_removeAccount w p.1 p.2
   · split
     · simp only [setAccount, total_setBal]; omega
     · simp
@@ -1298,9 +1349,9 @@ theorem total_finW (w : World) (c : List (Addr × Obj)) (hn : (akeys c).Nodup) :
       intro e; subst e; exact hn'.1 ha
     rw [this]; simp only [wsum]; omega
 
-/-- every object `Finalise` does not write (clean, or dropped) holds exactly the stored balance -/
-def Settled (s : St) : Prop :=
-  ∀ a o, alookup a s.cache = some o → (gone o = true ∨ o.dirty = false) → o.bal = bal s.w.bal a
+/-- every clean cached object holds exactly the stored balance (it is what the keeper returned) -/
+def Mirror (s : St) : Prop :=
+  ∀ a o, alookup a s.cache = some o → o.dirty = false → o.bal = bal s.w.bal a
 
 theorem alookup_of_mem_nodup (c : List (Addr × Obj)) (a : Addr) (o : Obj) (hm : (a, o) ∈ c)
     (hn : (akeys c).Nodup) : alookup a c = some o := by
@@ -1320,7 +1371,7 @@ theorem alookup_of_mem_nodup (c : List (Addr × Obj)) (a : Addr) (o : Obj) (hm :
       simp [alookup, hk, ih hm hn'.2]
 
 theorem wsum_eq_pendL (w : World) (c : List (Addr × Obj))
-    (h : ∀ p ∈ c, (gone p.2 = true ∨ p.2.dirty = false) → p.2.bal = bal w.bal p.1) :
+    (h : ∀ p ∈ c, p.2.dirty = false → p.2.bal = bal w.bal p.1) :
     wsum w c = pendL w c := by
   induction c with
   | nil => rfl
@@ -1329,332 +1380,157 @@ theorem wsum_eq_pendL (w : World) (c : List (Addr × Obj))
     have h2 := ih (fun p hp => h p (List.mem_cons_of_mem _ hp))
     simp only [wsum, pendL, h2]
     by_cases hg : gone hd.2 = true
-    · simp [hg, h1 (Or.inl hg)]
+    · simp [hg]
     · by_cases hd' : hd.2.dirty = true
       · simp [hg, hd']
       · simp only [hg, Bool.false_eq_true, if_false, hd']
-        have := h1 (Or.inr (by simpa using hd'))
+        have := h1 (by simpa using hd')
         omega
 
 /-- `Finalise` moves into the records exactly what the cache held on top of them -/
-theorem total_finalise (s : St) (hwf : WF s) (hs : Settled s) :
+theorem total_finalise (s : St) (hwf : WF s) (hs : Mirror s) :
     total (finalise s).w.bal = total s.w.bal + pend s := by
   rw [finalise_w, total_finW _ _ hwf, wsum_eq_pendL]
   · rfl
   · intro p hp hq
     exact hs p.1 p.2 (alookup_of_mem_nodup _ _ _ hp hwf) hq
-/-! ## the invariant behind value conservation -/
 
-/-- fixed data of one transaction: the records it started from and who sent it -/
-structure Ctx where
-  w0 : World
-  sender : Addr
+/-! ## the invariant behind value conservation: clean objects mirror the records -/
 
-/-- accounts that are never empty while the transaction runs: the sender (its nonce is bumped
-    before anything else happens) and the contracts that exist with code -/
-def isC (c : Ctx) (a : Addr) : Prop :=
-  a = c.sender ∨ ∃ r, alookup a c.w0.keeper = some r ∧ r.code = true
+theorem mirror_putObj (s : St) (a : Addr) (o' : Obj) (h : Mirror s)
+    (ho : o'.dirty = false → o'.bal = bal s.w.bal a) : Mirror (putObj s a o') := by
+  intro b o hb hd
+  rw [alookup_putObj] at hb
+  by_cases hba : b = a
+  · subst hba; simp at hb; subst hb; exact ho hd
+  · simp [hba] at hb; exact h b o hb hd
 
-/-- a cached object is in order: a clean one mirrors the record; a plain one (no code, nonce 0)
-    holds at least the stored balance; a never-empty account has code or a nonce; not suicided -/
-def OK (c : Ctx) (a : Addr) (o : Obj) : Prop :=
-  (o.dirty = false → o.bal = bal c.w0.bal a) ∧
-  (o.code = true ∨ o.nonce ≠ 0 ∨ bal c.w0.bal a ≤ o.bal) ∧
-  (isC c a → o.code = true ∨ o.nonce ≠ 0) ∧
-  o.suicided = false
-
-structure Good (c : Ctx) (s : St) : Prop where
-  hw : s.w = c.w0
-  cached : ∃ o, alookup c.sender s.cache = some o
-  obj : ∀ a o, alookup a s.cache = some o → OK c a o
-
-theorem good_putObj (c : Ctx) (s : St) (a : Addr) (o' : Obj) (h : Good c s) (ho : OK c a o') :
-    Good c (putObj s a o') := by
-  refine ⟨h.hw, ?_, ?_⟩
-  · by_cases hs : c.sender = a
-    · exact ⟨o', by rw [alookup_putObj]; simp [hs]⟩
-    · obtain ⟨o, ho⟩ := h.cached
-      exact ⟨o, by rw [alookup_putObj_ne _ _ _ _ hs]; exact ho⟩
-  · intro b o hb
-    rw [alookup_putObj] at hb
-    by_cases hba : b = a
-    · subst hba; simp at hb; subst hb; exact ho
-    · simp [hba] at hb; exact h.obj b o hb
-
-theorem loadAcct_code (w : World) (a : Addr) (r : KRec) (h : alookup a w.keeper = some r) :
-    ∃ o, loadAcct w a = some o ∧ o.code = r.code := by
-  unfold loadAcct; rw [h]; exact ⟨_, rfl, rfl⟩
-
-theorem ok_objOrNew (c : Ctx) (s : St) (a : Addr) (h : Good c s) : OK c a (objOrNew s a) := by
+theorem mirror_objOrNew (s : St) (a : Addr) (h : Mirror s) (hd : (objOrNew s a).dirty = false) :
+    (objOrNew s a).bal = bal s.w.bal a := by
   cases hc : alookup a s.cache with
-  | some o => rw [objOrNew_of_cache s a o hc]; exact h.obj a o hc
+  | some o => rw [objOrNew_of_cache s a o hc] at hd ⊢; exact h a o hc hd
   | none =>
-    have hsender : a ≠ c.sender := by
-      intro e; subst e
-      obtain ⟨o, ho⟩ := h.cached
-      rw [ho] at hc; simp at hc
     have hp : peek s a = loadAcct s.w a := by simp [peek, hc]
     cases hl : loadAcct s.w a with
     | some o =>
       have ho : objOrNew s a = o := by simp [objOrNew, hp, hl]
-      rw [ho]
-      obtain ⟨h1, h2, h3⟩ := loadAcct_some s.w a o hl
-      rw [h.hw] at h1
-      refine ⟨fun _ => h1, Or.inr (Or.inr (by omega)), ?_, h3⟩
-      rintro (e | ⟨r, hr, hrc⟩)
-      · exact absurd e hsender
-      · obtain ⟨o', ho', hoc⟩ := loadAcct_code c.w0 a r hr
-        rw [← h.hw, hl] at ho'
-        simp at ho'; subst ho'
-        exact Or.inl (by rw [hoc, hrc])
+      rw [ho]; exact (loadAcct_some s.w a o hl).1
     | none =>
       have ho : objOrNew s a = freshObj s a := by simp [objOrNew, hp, hl]
-      rw [ho]
-      have hb : (freshObj s a).bal = bal c.w0.bal a := by simp [freshObj, h.hw]
-      refine ⟨by simp [freshObj], Or.inr (Or.inr (by omega)), ?_, rfl⟩
-      rintro (e | ⟨r, hr, -⟩)
-      · exact absurd e hsender
-      · obtain ⟨o', ho', -⟩ := loadAcct_code c.w0 a r hr
-        rw [← h.hw, hl] at ho'; simp at ho'
+      rw [ho]; rfl
 
-theorem good_subBalance (c : Ctx) (s : St) (a : Addr) (n : Int) (h : Good c s) (hc : n = 0 ∨ isC c a) :
-    Good c (subBalance s a n) := by
+theorem mirror_subBalance (s : St) (a : Addr) (n : Int) (h : Mirror s) : Mirror (subBalance s a n) := by
   rw [subBalance_eq]
-  apply good_putObj c s a _ h
-  obtain ⟨h1, h2, h3, h4⟩ := ok_objOrNew c s a h
+  apply mirror_putObj s a _ h
   unfold subF
   by_cases hn : n = 0
-  · simp only [hn, if_true]; exact ⟨h1, h2, h3, h4⟩
-  · simp only [hn, if_false]
-    have hC : isC c a := by rcases hc with e | e; exact absurd e hn; exact e
-    refine ⟨by simp, ?_, h3, h4⟩
-    rcases h3 hC with e | e
-    · exact Or.inl e
-    · exact Or.inr (Or.inl e)
+  · simp only [hn, if_true]; exact mirror_objOrNew s a h
+  · simp [hn]
 
-theorem good_addBalance (c : Ctx) (s : St) (a : Addr) (n : Int) (h : Good c s) (hn : 0 ≤ n) :
-    Good c (addBalance s a n) := by
+theorem mirror_addBalance (s : St) (a : Addr) (n : Int) (h : Mirror s) : Mirror (addBalance s a n) := by
   rw [addBalance_eq]
-  apply good_putObj c s a _ h
-  obtain ⟨h1, h2, h3, h4⟩ := ok_objOrNew c s a h
+  apply mirror_putObj s a _ h
   unfold addF
-  by_cases hz : n = 0
+  by_cases hn : n = 0
   · by_cases he : isEmpty (objOrNew s a) = true
-    · simp only [hz, he, if_true]; exact ⟨by simp, h2, h3, h4⟩
-    · simp only [hz, he, if_true, Bool.false_eq_true, if_false]; exact ⟨h1, h2, h3, h4⟩
-  · simp only [hz, if_false]
-    refine ⟨by simp, ?_, h3, h4⟩
-    rcases h2 with e | e | e
-    · exact Or.inl e
-    · exact Or.inr (Or.inl e)
-    · exact Or.inr (Or.inr (by simp only; omega))
+    · simp [hn, he]
+    · simp only [hn, he, if_true, Bool.false_eq_true, if_false]; exact mirror_objOrNew s a h
+  · simp [hn]
 
-theorem good_setNonce (c : Ctx) (s : St) (a : Addr) (k : Nat) (h : Good c s) (hk : k ≠ 0) :
-    Good c (setNonce s a k) := by
-  rw [setNonce_eq]
-  apply good_putObj c s a _ h
-  obtain ⟨-, -, -, h4⟩ := ok_objOrNew c s a h
-  exact ⟨by simp [nonceF], Or.inr (Or.inl (by simpa [nonceF] using hk)),
-    fun _ => Or.inr (by simpa [nonceF] using hk), h4⟩
+theorem mirror_setNonce (s : St) (a : Addr) (k : Nat) (h : Mirror s) : Mirror (setNonce s a k) := by
+  rw [setNonce_eq]; exact mirror_putObj s a _ h (by simp [nonceF])
 
-theorem good_setCode (c : Ctx) (s : St) (a : Addr) (h : Good c s) : Good c (setCode s a) := by
-  rw [setCode_eq]
-  apply good_putObj c s a _ h
-  obtain ⟨-, -, -, h4⟩ := ok_objOrNew c s a h
-  exact ⟨by simp [codeF], Or.inl rfl, fun _ => Or.inl rfl, h4⟩
+theorem mirror_setCode (s : St) (a : Addr) (h : Mirror s) : Mirror (setCode s a) := by
+  rw [setCode_eq]; exact mirror_putObj s a _ h (by simp [codeF])
 
-theorem good_markDirty (c : Ctx) (s : St) (a : Addr) (h : Good c s) : Good c (markDirty s a) := by
-  unfold markDirty
-  cases hp : peek s a with
-  | none => exact h
-  | some o =>
-    simp only
-    apply good_putObj c s a _ h
-    have := ok_objOrNew c s a h
-    simp only [objOrNew, hp] at this
-    obtain ⟨-, h2, h3, h4⟩ := this
-    exact ⟨by simp, h2, h3, h4⟩
+theorem mirror_suicide (s : St) (a : Addr) (h : Mirror s) : Mirror (suicide s a) := by
+  unfold suicide; split
+  · exact h
+  · exact mirror_putObj s a _ h (by simp)
 
-theorem good_markAll (c : Ctx) (s : St) (l : List Addr) (h : Good c s) : Good c (markAll s l) := by
+theorem mirror_createAccount (s : St) (a : Addr) (h : Mirror s) : Mirror (createAccount s a) := by
+  unfold createAccount; split <;> exact mirror_putObj s a _ h (by simp [freshObj])
+
+theorem mirror_markDirty (s : St) (a : Addr) (h : Mirror s) : Mirror (markDirty s a) := by
+  unfold markDirty; split
+  · exact mirror_putObj s a _ h (by simp)
+  · exact h
+
+theorem mirror_markAll (s : St) (l : List Addr) (h : Mirror s) : Mirror (markAll s l) := by
   unfold markAll
   induction l generalizing s with
   | nil => exact h
-  | cons x t ih => exact ih _ (good_markDirty c s x h)
+  | cons x t ih => exact ih _ (mirror_markDirty s x h)
 
-/-- `EVM.Call` creating a missing recipient -/
-theorem good_callPrep (c : Ctx) (s : St) (t : Addr) (h : Good c s) : Good c (callPrep s t) := by
-  unfold callPrep
-  by_cases he : evmExist s t = true
-  · simp [he]; exact h
-  · simp only [he, Bool.false_eq_true, if_false]
-    have hp : peek s t = none := by
-      unfold evmExist at he
-      cases hp : peek s t with
-      | none => rfl
-      | some o => simp [hp] at he
-    unfold createAccount
-    rw [hp]
-    simp only
-    apply good_putObj c s t _ h
-    have := ok_objOrNew c s t h
-    simpa [objOrNew, hp] using this
+theorem mirror_transfer (s : St) (x y : Addr) (v : Int) (h : Mirror s) : Mirror (transfer s x y v) :=
+  mirror_addBalance _ _ _ (mirror_subBalance _ _ _ h)
 
-/-- `EVM.create`: fresh account immediately given nonce 1 -/
-theorem good_createNonce1 (c : Ctx) (s : St) (a : Addr) (h : Good c s) :
-    Good c (setNonce (createAccount s a) a 1) := by
-  have key : ∃ x : Obj, createAccount s a = putObj s a x ∧ x.suicided = false := by
-    unfold createAccount
-    cases peek s a with
-    | some p => exact ⟨_, rfl, rfl⟩
-    | none => exact ⟨_, rfl, rfl⟩
-  obtain ⟨x, hx, hxs⟩ := key
-  rw [hx, setNonce_eq, objOrNew_of_cache _ a x (alookup_putObj_self s a x)]
-  have h2 : putObj (putObj s a x) a (nonceF 1 x) = putObj s a (nonceF 1 x) := by
-    unfold putObj
-    simp only
-    congr 1
-    induction s.cache with
-    | nil => simp [upsert]
-    | cons hd t ih =>
-      by_cases hk : hd.1 = a
-      · simp [upsert, hk]
-      · simp [upsert, hk, ih]
-  rw [h2]
-  apply good_putObj c s a _ h
-  exact ⟨by simp [nonceF], Or.inr (Or.inl (by simp [nonceF])), fun _ => Or.inr (by simp [nonceF]),
-    by simpa [nonceF] using hxs⟩
+theorem mirror_callPrep (s : St) (t : Addr) (h : Mirror s) : Mirror (callPrep s t) := by
+  unfold callPrep; split
+  · exact h
+  · exact mirror_createAccount s t h
 
-theorem isC_sender (c : Ctx) : isC c c.sender := Or.inl rfl
+theorem mirror_createPrep (s : St) (tx : Tx) (a : Addr) (h : Mirror s) : Mirror (createPrep s tx a) :=
+  mirror_transfer _ _ _ _ (mirror_setNonce _ _ _ (mirror_createAccount _ _ h))
 
-theorem good_transfer (c : Ctx) (s : St) (t : Addr) (v : Int) (h : Good c s) (hv : 0 ≤ v) :
-    Good c (transfer s c.sender t v) := by
-  unfold transfer
-  exact good_addBalance c _ t v (good_subBalance c s c.sender v h (Or.inr (isC_sender c))) hv
-
-/-- what the theorem asks of the interpreter's surviving balance calls: no SELFDESTRUCT, credits
-    are non-negative, debits come out of the sender or of contracts that exist with code -/
-def EffsOk (c : Ctx) (l : List Eff) : Prop :=
-  noSuicide l = true ∧ (∀ a n, Eff.add a n ∈ l → 0 ≤ n) ∧ (∀ a n, Eff.sub a n ∈ l → n = 0 ∨ isC c a)
-
-theorem good_applyEffs (c : Ctx) (s s' : St) (l : List Eff) (h : Good c s) (hl : EffsOk c l)
-    (he : applyEffs s l = some s') : Good c s' := by
+theorem mirror_applyEffs (s s' : St) (l : List Eff) (h : Mirror s) (he : applyEffs s l = some s') :
+    Mirror s' := by
   induction l generalizing s with
   | nil => simp [applyEffs] at he; subst he; exact h
   | cons e t ih =>
-    obtain ⟨h1, h2, h3⟩ := hl
     simp only [applyEffs] at he
-    cases hs1 : applyEff s e with
-    | none => simp [hs1] at he
+    cases h1 : applyEff s e with
+    | none => simp [h1] at he
     | some s1 =>
-      simp only [hs1] at he
-      have ht : EffsOk c t := by
-        refine ⟨?_, fun a n hm => h2 a n (List.mem_cons_of_mem _ hm), fun a n hm => h3 a n (List.mem_cons_of_mem _ hm)⟩
-        cases e <;> simp_all [noSuicide]
-      apply ih s1 _ ht he
+      simp only [h1] at he
+      apply ih s1 _ he
       cases e with
       | sub a n =>
-        simp only [applyEff] at hs1
-        split at hs1
-        · simp at hs1
-        · simp at hs1; subst hs1
-          exact good_subBalance c s a n h (h3 a n List.mem_cons_self)
-      | add a n =>
-        simp only [applyEff, Option.some.injEq] at hs1; subst hs1
-        exact good_addBalance c s a n h (h2 a n List.mem_cons_self)
-      | suicide a => simp [noSuicide] at h1
+        simp only [applyEff] at h1
+        split at h1
+        · simp at h1
+        · simp at h1; subst h1; exact mirror_subBalance s a n h
+      | add a n => simp only [applyEff, Option.some.injEq] at h1; subst h1; exact mirror_addBalance s a n h
+      | suicide a => simp only [applyEff, Option.some.injEq] at h1; subst h1; exact mirror_suicide s a h
 
-theorem good_evmCall (c : Ctx) (s : St) (tx : Tx) (t : Addr) (gas : Nat) (vm : VmOut) (s2 : St) (gl : Nat) (f : Bool)
-    (h : Good c s) (hs : tx.sender = c.sender) (hv : 0 ≤ tx.value) (hl : EffsOk c vm.effs)
-    (hr : evmCall s tx t gas vm = some (s2, gl, f)) : Good c s2 := by
-  have hpre : Good c (transfer (callPrep s t) tx.sender t tx.value) := by
-    rw [hs]; exact good_transfer c _ t _ (good_callPrep c s t h) hv
+theorem mirror_evmCall (s : St) (tx : Tx) (t : Addr) (gas : Nat) (vm : VmOut) (s2 : St) (gl : Nat) (f : Bool)
+    (h : Mirror s) (hr : evmCall s tx t gas vm = some (s2, gl, f)) : Mirror s2 := by
+  have hpre := mirror_transfer _ tx.sender t tx.value (mirror_callPrep s t h)
   rcases evmCall_cases s tx t gas vm s2 gl f hr with
     ⟨rfl, -⟩ | ⟨rfl, -⟩ | ⟨rfl, -⟩ | ⟨rfl, -⟩ | ⟨s3, he, rfl, -⟩
   · exact h
   · exact h
   · exact hpre
-  · exact good_markAll c s _ h
-  · exact good_markAll c s3 _ (good_applyEffs c _ s3 vm.effs hpre hl he)
+  · exact mirror_markAll s _ h
+  · exact mirror_markAll s3 _ (mirror_applyEffs _ s3 vm.effs hpre he)
 
-theorem good_evmCreate (c : Ctx) (env : Env) (s : St) (tx : Tx) (vm : VmOut) (gas : Nat) (s2 : St) (gl : Nat) (f : Bool)
-    (h0 : Good c (setNonce s tx.sender (evmNonce s tx.sender + 1))) (hbal : ¬ evmBalance s tx.sender < tx.value)
-    (hs : tx.sender = c.sender) (hv : 0 ≤ tx.value) (hl : EffsOk c vm.effs)
-    (hr : evmCreate env s tx vm gas = some (s2, gl, f)) : Good c s2 := by
-  have hpre : Good c (createPrep (setNonce s tx.sender (evmNonce s tx.sender + 1)) tx env.newAddr) := by
-    unfold createPrep
-    rw [hs]
-    exact good_transfer c _ env.newAddr _ (good_createNonce1 c _ env.newAddr (by rw [← hs]; exact h0)) hv
+theorem mirror_evmCreate (env : Env) (s : St) (tx : Tx) (vm : VmOut) (gas : Nat) (s2 : St) (gl : Nat) (f : Bool)
+    (h : Mirror s) (hr : evmCreate env s tx vm gas = some (s2, gl, f)) : Mirror s2 := by
+  have h0 := mirror_setNonce s tx.sender (evmNonce s tx.sender + 1) h
   rcases evmCreate_cases env s tx vm gas s2 gl f hr with
-    ⟨-, -, -, hlt⟩ | ⟨rfl, -⟩ | ⟨rfl, -⟩ | ⟨s3, he, rfl, -⟩
-  · exact absurd hlt hbal
+    ⟨rfl, -⟩ | ⟨rfl, -⟩ | ⟨rfl, -⟩ | ⟨s3, he, rfl, -⟩
+  · exact h
   · exact h0
-  · exact good_markAll c _ _ h0
-  · have h3 := good_applyEffs c _ s3 vm.effs hpre hl he
-    apply good_markAll
+  · exact mirror_markAll _ _ h0
+  · have h3 := mirror_applyEffs _ s3 vm.effs (mirror_createPrep _ tx env.newAddr h0) he
+    apply mirror_markAll
     split
-    · exact good_setCode c s3 _ h3
+    · exact mirror_setCode s3 _ h3
     · exact h3
 
-/-- after `buyGas` and the nonce bump the cache holds one object, the sender's, with a nonce -/
-theorem good_bumped (s : St) (tx : Tx) (h0 : s.cache = []) :
-    Good ⟨s.w, tx.sender⟩ (setNonce (bought s tx) tx.sender (evmNonce (bought s tx) tx.sender + 1)) := by
-  obtain ⟨o, ho, -, -, hos⟩ := bought_obj s tx h0
-  rw [setNonce_eq, objOrNew_of_cache _ _ o ho]
-  refine ⟨by simp [bought_w], ⟨_, alookup_putObj_self _ _ _⟩, ?_⟩
-  intro a x hx
-  rw [alookup_putObj] at hx
-  by_cases ha : a = tx.sender
-  · simp [ha] at hx; subst hx
-    exact ⟨by simp [nonceF], Or.inr (Or.inl (by simp [nonceF])), fun _ => Or.inr (by simp [nonceF]),
-      by simpa [nonceF] using hos⟩
-  · simp only [ha, if_false] at hx
-    unfold bought at hx
-    rw [subBalance_frame s tx.sender a _ ha, h0] at hx
-    simp [alookup] at hx
-
-theorem validate_none_price (env : Env) (w : World) (tx : Tx) (h : validate env w tx = none) :
-    env.minFee ≤ tx.price := by
-  by_cases hv : tx.price < env.minFee
-  · exfalso
-    unfold validate at h
-    simp only [hv, if_true] at h
-    repeat' split at h
-    all_goals simp at h
-  · omega
+theorem mirror_of_empty (s : St) (h : s.cache = []) : Mirror s := by
+  intro a o ha; rw [h] at ha; simp [alookup] at ha
 
 /-- the invariant holds when `TransitionDb` returns -/
-theorem good_transitionDb (env : Env) (s s1 : St) (tx : Tx) (vm : VmOut) (er : ExecResult)
-    (h0 : s.cache = []) (hv : 0 ≤ tx.value) (hp : 0 ≤ tx.price) (hl : EffsOk ⟨s.w, tx.sender⟩ vm.effs)
-    (h : transitionDb env s tx vm = some (s1, .ok er)) : Good ⟨s.w, tx.sender⟩ s1 := by
-  obtain ⟨s2, gl, f, hpc, hr, -, hc6, rfl, rfl⟩ := transitionDb_ok env s s1 tx vm er h
-  obtain ⟨-, -, -, hfunds, -⟩ := preCheck_ok env s _ tx hpc
-  obtain ⟨o, ho, hob, -, -⟩ := bought_obj s tx h0
-  have hbal : ¬ evmBalance (bought s tx) tx.sender < tx.value := by
-    rw [evmBalance_of_cache _ _ o ho] at hc6 ⊢
-    rw [evmBalance_empty_cache s _ h0] at hfunds
-    by_cases hz : tx.value > 0
-    · intro hlt; exact hc6 ⟨hz, hlt⟩
-    · have : tx.value = 0 := by omega
-      rw [this, hob]; omega
-  have hs2 : Good ⟨s.w, tx.sender⟩ s2 := by
+theorem mirror_transitionDb (env : Env) (s s1 : St) (tx : Tx) (vm : VmOut) (er : ExecResult)
+    (h0 : s.cache = []) (h : transitionDb env s tx vm = some (s1, .ok er)) : Mirror s1 := by
+  obtain ⟨s2, gl, f, -, hr, -, -, rfl, rfl⟩ := transitionDb_ok env s s1 tx vm er h
+  have hb : Mirror (bought s tx) := mirror_subBalance s _ _ (mirror_of_empty s h0)
+  have hs2 : Mirror s2 := by
     unfold runVm at hr
     split at hr
-    · exact good_evmCreate _ env _ tx vm _ s2 gl f (good_bumped s tx h0) hbal rfl hv hl hr
-    · exact good_evmCall _ _ tx _ _ vm s2 gl f (good_bumped s tx h0) rfl hv hl hr
-  exact good_addBalance _ s2 tx.sender _ hs2 (Int.mul_nonneg (by omega) hp)
+    · exact mirror_evmCreate env _ tx vm _ s2 gl f hb hr
+    · exact mirror_evmCall _ tx _ _ vm s2 gl f (mirror_setNonce _ _ _ hb) hr
+  exact mirror_addBalance s2 _ _ hs2
 
-theorem settled_of_good (c : Ctx) (s : St) (h : Good c s) (hnn : NonNeg c.w0.bal) : Settled s := by
-  intro a o ha hq
-  obtain ⟨h1, h2, -, h4⟩ := h.obj a o ha
-  rw [h.hw]
-  rcases hq with hg | hd
-  · unfold gone isEmpty at hg
-    simp only [h4, Bool.false_or, Bool.and_eq_true, beq_iff_eq, Bool.not_eq_true'] at hg
-    obtain ⟨-, ⟨hn, hb⟩, hc⟩ := hg
-    have := bal_nonneg c.w0.bal a hnn
-    rcases h2 with e | e | e
-    · rw [hc] at e; simp at e
-    · exact absurd hn e
-    · omega
-  · exact h1 hd
 end OLP.Olvm
